@@ -78,8 +78,10 @@ pub fn missing_code(f: Fd) -> i64 {
 }
 
 pub fn fmt_date_ms(ms: i64) -> String {
-    let dt = time::OffsetDateTime::from_unix_timestamp_nanos(ms as i128 * 1_000_000).unwrap();
-    dt.format(&time::format_description::well_known::Rfc3339).unwrap()
+    match time::OffsetDateTime::from_unix_timestamp_nanos(ms as i128 * 1_000_000) {
+        Ok(dt) => dt.format(&time::format_description::well_known::Rfc3339).unwrap_or_else(|_| format!("unformattable date {ms} ms")),
+        Err(_) => format!("date {ms} ms out of range"),
+    }
 }
 pub fn parse_date_ms(s: &str) -> Option<i64> {
     let dt = time::OffsetDateTime::parse(s, &time::format_description::well_known::Rfc3339).ok()?;
@@ -119,9 +121,37 @@ pub fn doc_to_json(d: &MDoc) -> Value {
 
 /// Order-preserving dense ranks of the values of every field (terms keys are sent to the Lean
 /// model as ranks under field id `f + NF`, so that its key enumeration stays small).
-pub struct Ranks(pub Vec<Vec<i64>>);
+pub struct Ranks(pub Vec<Vec<i64>>, pub Vec<(String, usize, CSrc, Vec<i64>)>);
 impl Ranks {
+    /// synthetic model field holding the ranks of source `j` of the composite node `name`
+    pub fn comp_idx(&self, name: &str, j: usize) -> usize { self.1.iter().position(|c| c.0 == name && c.1 == j).expect("composite source") }
+    pub fn comp_field(&self, name: &str, j: usize) -> usize { 2 * NF + self.comp_idx(name, j) }
+    pub fn comp_base(&self, name: &str, j: usize) -> i64 { (self.1[self.comp_idx(name, j)].3.len() as i64).max(1) }
+    /// mixed-radix code of a composite key (the Lean model's `compKeys`)
+    pub fn comp_code(&self, name: &str, sources: &[CSrc], key: &[i64]) -> i64 {
+        let mut code = 0i64;
+        for (j, s) in sources.iter().enumerate() {
+            let base = self.comp_base(name, j);
+            let rank = self.1[self.comp_idx(name, j)].3.binary_search(&key[j]).map(|p| p as i64).unwrap_or(0);
+            code = code * base + if s.desc { base - 1 - rank } else { rank };
+        }
+        code
+    }
     pub fn new(docs: &[MDoc], nodes: &[Node]) -> Ranks {
+        let mut comp = vec![];
+        fn walk_comp(nodes: &[Node], docs: &[MDoc], out: &mut Vec<(String, usize, CSrc, Vec<i64>)>) {
+            for n in nodes {
+                if let Agg::Composite { sources, after, .. } = &n.agg {
+                    for (j, s) in sources.iter().enumerate() {
+                        let mut set: std::collections::BTreeSet<i64> = docs.iter().flat_map(|d| csrc_vals(s, d, false)).collect();
+                        if let Some(a) = after { set.insert(a[j]); }
+                        out.push((n.name.clone(), j, s.clone(), set.into_iter().collect()));
+                    }
+                }
+                walk_comp(&n.subs, docs, out);
+            }
+        }
+        walk_comp(nodes, docs, &mut comp);
         let mut sets: Vec<std::collections::BTreeSet<i64>> = vec![Default::default(); NF];
         for d in docs { for f in 0..NF { sets[f].extend(d[f].iter().cloned()); } }
         fn walk(nodes: &[Node], sets: &mut Vec<std::collections::BTreeSet<i64>>) {
@@ -131,7 +161,7 @@ impl Ranks {
             }
         }
         walk(nodes, &mut sets);
-        Ranks(sets.into_iter().map(|s| s.into_iter().collect()).collect())
+        Ranks(sets.into_iter().map(|s| s.into_iter().collect()).collect(), comp)
     }
     pub fn rank(&self, f: Fd, c: i64) -> i64 { self.0[f.id()].binary_search(&c).map(|p| p as i64).unwrap_or(-1) }
 }
@@ -144,6 +174,12 @@ pub fn parts_to_lean(docs: &[MDoc], parts: &[Vec<usize>], ranks: &Ranks) -> Stri
         for f in ALL_FD {
             if !d[f.id()].is_empty() {
                 items.push(format!("{}={}", f.id() + NF, d[f.id()].iter().map(|v| ranks.rank(f, *v).to_string()).collect::<Vec<_>>().join(",")));
+            }
+        }
+        for (i, c) in ranks.1.iter().enumerate() {
+            let vs = csrc_vals(&c.2, d, true);
+            if !vs.is_empty() {
+                items.push(format!("{}={}", 2 * NF + i, vs.iter().map(|v| c.3.binary_search(v).map(|p| p as i64).unwrap_or(0).to_string()).collect::<Vec<_>>().join(",")));
             }
         }
         if items.is_empty() { "e".into() } else { items.join("/") }
@@ -172,7 +208,8 @@ pub enum Agg {
     Range { field: Fd, ranges: Vec<(Option<i64>, Option<i64>, Option<String>)> },
     Filter { field: Fd, code: i64 },
     /// composite: every source is a terms source (`interval = None`) or a histogram source
-    Composite { sources: Vec<CSrc>, size: u32 },
+    /// `after`: the previous page's last key (source keys in model units), exclusive
+    Composite { sources: Vec<CSrc>, size: u32, #[serde(default)] after: Option<Vec<i64>> },
 }
 
 #[derive(Clone, PartialEq, Debug, Serialize, Deserialize)]
@@ -315,7 +352,7 @@ pub fn nodes_to_json(nodes: &[Node]) -> Value {
                 }).collect();
                 o.insert("range".into(), if n.opt.keyed { json!({"field": field.name(), "ranges": rs, "keyed": true}) } else { json!({"field": field.name(), "ranges": rs}) });
             }
-            Agg::Composite { sources, size } => {
+            Agg::Composite { sources, size, after } => {
                 let srcs: Vec<Value> = sources.iter().map(|c| {
                     let ord = if c.desc { "desc" } else { "asc" };
                     let inner = match c.interval {
@@ -324,7 +361,19 @@ pub fn nodes_to_json(nodes: &[Node]) -> Value {
                     };
                     json!({ c.name.clone(): inner })
                 }).collect();
-                o.insert("composite".into(), json!({"sources": srcs, "size": size}));
+                let mut body = json!({"sources": srcs, "size": size});
+                if let Some(a) = after {
+                    // after-key values are "<type>:<value>" strings
+                    let mut m = serde_json::Map::new();
+                    for (c, v) in sources.iter().zip(a) {
+                        let txt = if c.field.is_str() { format!("str:{}", universe(c.field)[*v as usize]) }
+                            else if c.interval.is_some() { format!("f64:{}", *v as f64 / c.field.scale() as f64) }
+                            else if c.field == Fd::U { format!("u64:{v}") } else { format!("i64:{v}") };
+                        m.insert(c.name.clone(), json!(txt));
+                    }
+                    body["after"] = Value::Object(m);
+                }
+                o.insert("composite".into(), body);
             }
             Agg::Filter { field, code } => {
                 let q = if field.is_str() { format!("{}:{}", field.name(), universe(*field)[*code as usize]) } else { format!("{}:{}", field.name(), code) };
@@ -363,8 +412,9 @@ pub fn nodes_to_lean(nodes: &[Node], counts_only: bool, ranks: &Ranks) -> String
     fn one(n: &Node, counts_only: bool, ranks: &Ranks) -> String {
         let sub = nodes_to_lean(&n.subs, counts_only, ranks);
         match &n.agg {
-            Agg::Metric { kind, field, missing, .. } => match kind {
-                MK::Percentiles | MK::Cardinality | MK::TopHits => "N".into(),
+            Agg::Metric { kind, field, missing, desc, k } => match kind {
+                MK::TopHits => format!("TH,{},{},{},{}", field.id(), field.id(), k, if *desc { "d" } else { "a" }),
+                MK::Percentiles | MK::Cardinality => "N".into(),
                 _ if counts_only || field.is_str() => "N".into(),
                 _ => format!("M,{},{}", field.id(), opt(*missing)),
             },
@@ -383,7 +433,11 @@ pub fn nodes_to_lean(nodes: &[Node], counts_only: bool, ranks: &Ranks) -> String
                 format!("{s},{sub}")
             }
             Agg::Filter { field, code } => format!("F,{},{},{}", field.id(), code, sub),
-            Agg::Composite { .. } => "N".into(),
+            Agg::Composite { sources, size, after } => {
+                let mut t = format!("C,{}", sources.len());
+                for (j, c) in sources.iter().enumerate() { t.push_str(&format!(",{},{},{}", ranks.comp_field(&n.name, j), ranks.comp_base(&n.name, j), if c.desc { "d" } else { "a" })); }
+                format!("{t},{size},{},{sub}", after.as_ref().map(|a| ranks.comp_code(&n.name, sources, a).to_string()).unwrap_or("_".into()))
+            }
         }
     }
     match nodes.len() {
@@ -533,7 +587,14 @@ fn gen_bucket(rng: &mut Rng, depth: usize) -> Agg {
                 let interval = if field.is_numeric() && rng.chance(1, 2) { Some(*rng.pick(&[5i64, 10, 25])) } else { None };
                 CSrc { name: format!("s{i}"), field, interval, desc: rng.chance(1, 3) }
             }).collect();
-            Agg::Composite { sources, size: *rng.pick(&[1u32, 2, 5, 50]) }
+            let sources: Vec<CSrc> = sources;
+            let after = if rng.chance(1, 3) {
+                Some(sources.iter().map(|c| {
+                    let v: i64 = match c.field { Fd::Cat => rng.below(5) as i64, Fd::Kw => kw_code(rng.usize_below(8)), Fd::U => rng.below(60) as i64, _ => rng.below(41) as i64 - 20 };
+                    match c.interval { Some(i) => v.div_euclid(i) * i, None => v }
+                }).collect())
+            } else { None };
+            Agg::Composite { sources, size: *rng.pick(&[1u32, 2, 5, 50]), after }
         }
         _ => {
             if rng.chance(1, 2) { Agg::Filter { field: Fd::Sel, code: rng.below(4) as i64 } }
@@ -576,7 +637,7 @@ pub fn gen_nodes(rng: &mut Rng, depth: usize, max_depth: usize, counter: &mut us
 /// false when the request uses something the Lean model does not cover
 pub fn lean_modelled(nodes: &[Node]) -> bool {
     nodes.iter().all(|n| !matches!(&n.agg, Agg::Terms { field, mdc: Some(0), .. } if field.is_str())
-        && !matches!(n.agg, Agg::Composite { .. }) && n.opt.include.is_none() && n.opt.exclude.is_none() && n.opt.sub_order.is_none() && lean_modelled(&n.subs))
+        && n.opt.include.is_none() && n.opt.exclude.is_none() && n.opt.sub_order.is_none() && lean_modelled(&n.subs))
 }
 
 /// keyed output, include / exclude, order by a metric sub-aggregation
